@@ -2,6 +2,7 @@ import Op2Proofs.SliceNesting
 import Op2Proofs.TypedReads
 import Op2Proofs.LittleEndian
 import Op2Proofs.SysAtomic
+import Op2Proofs.SysTyped
 /-!
 # C12 — readers deliver exactly the addressed bytes and fail atomically at bounds
 
@@ -369,5 +370,19 @@ theorem C12_failure_is_noop_every_backend (r : Rd) (op : ROp) (h : (r.step op).1
 theorem C12_refused_request_is_noop (r : Rd) (o : OOp)
     (h : (r.ostep o).1 = .out .err ∨ (r.ostep o).1 = .failed ∨ (r.ostep o).1 = .unsupported) : (r.ostep o).2 = r :=
   Rd.ostep_refused_noop r o h
+
+/-! ## the typed helpers as the correspondence run executes them: over `Rd.read` of a live object of any backend -/
+
+/-- `ReadNullTerminatedString` over the checked `Read(1)` of ANY backend object (memory, file, file slice, slice of a file slice — the
+    exact function the `z` tokens of the correspondence run execute) runs as over the abstract reader of what the object exposes:
+    same success / failure, same string, and the object ends well-formed where the abstract reader ends -/
+theorem C12_null_terminated_every_backend (r : Rd) (hr : r.Good) (fuel : Nat) (acc : Bytes) :
+    SimRes Eq Rd.abs Rd.Good (readNT Rd.read fuel r acc) (readNT RSpec.rd fuel r.abs acc) := Rd.readNT_sim r hr fuel acc
+
+/-- `Read<SizeType>(container)` likewise (the `q` / `i` / `v` tokens) -/
+theorem C12_prefixed_every_backend (r : Rd) (hr : r.Good) (width : Nat) (signed : Bool) (esz maxSize cap : Nat)
+    (hw : width < W64) (hcap : cap ≤ W64) :
+    SimRes Eq Rd.abs Rd.Good (readPrefixed Rd.read width signed esz maxSize cap r)
+      (readPrefixed RSpec.rd width signed esz maxSize cap r.abs) := Rd.readPrefixed_sim r hr width signed esz maxSize cap hw hcap
 
 end Op2.Props.C12
